@@ -225,6 +225,20 @@ def _is_write_mode(mode):
     return any(c in mode for c in "wax+")
 
 
+class _Unrenderable:
+    """stands for a transformed module whose code generation raises"""
+
+    def __init__(self, tree):
+        self._tree = tree
+
+    def __getattr__(self, name):
+        return getattr(self._tree, name)
+
+    @property
+    def code(self):
+        raise TypeError("injected: the transformed tree cannot be rendered")
+
+
 class SimHang(BaseException):
     """Bounded liveness: the code under test blocked on something that never completes in the simulated world (opening a
     FIFO nobody else has open).  A BaseException on purpose: the repository's `except Exception` handlers must not turn a
@@ -812,7 +826,12 @@ def install_repo_wrappers(repo_src):
     def transform(cls, module, results, file_context):
         if sched.CURRENT is not None and FS is not None:
             zp = FS.zone(file_context.file_path)[0]
-            if zp and FS.fault("transform", zp) is not None:
+            flt = FS.fault("transform", zp) if zp else None
+            if flt is not None and flt.kind == "codegen-raise":
+                # the transformer "succeeds" but hands back a tree that cannot be rendered (as a codemod building a malformed
+                # node does): the failure surfaces when the pipeline asks for tree.code
+                return _Unrenderable(orig_tr(cls, module, results, file_context))
+            if flt is not None:
                 raise RuntimeError("injected transformer failure")
         return orig_tr(cls, module, results, file_context)
 
